@@ -53,6 +53,10 @@ EdgeLo == {IMin - 1, IMin, IMin + 1}
 EdgePts == EdgeLo \cup EdgeHi
 IdLimit == 100000
 IsEdge(n) == n \in EdgePts
+\* stands for "an amount that fits in int64 but lies far above the identity region" (unit strings such as
+\* "8191PB"): larger than every small bound, in no fixed relation to the edge points; the harness computes the
+\* exact number with math/big
+HugeAmount == 999000
 
 None == [some |-> FALSE]
 Some(x) == [some |-> TRUE, v |-> x]
